@@ -238,6 +238,7 @@ def a_cases(tier):
                 cs.append(F.viaP(c1, c2, end=e + 1, order=order))
             cs.append(F.viaP2(c1, c2, c2, end=e))
             cs.append(F.viaPdup(c1, c2, c2, end=e, order=("B", "P", "A")))
+            cs.append(F.viaPdup(c1, c2, [], end=e, order=("B", "P", "A")))
             cs.append(F.viaPP(c1, c2, [], end=e))
             cs.append(F.viaPP(c1, [], c2, end=e, order=("B", "Q", "P", "A")))
         cs.append(F.diamondP(end=e, ch=c1))
